@@ -175,6 +175,81 @@ def one_store(net_kind, srv, handler, cl, ds, ts, from_file, workdir, rng, dir_m
     return obs, err, handler.got.get('error')
 
 
+def memory_service(handler_log):
+    """A storage provider role that is NOT configured for file storage (public interface: callable(asce, ctx, msg) with
+    sop_classes): the data set of every C-STORE-RQ is handed over in memory."""
+    def svc(asce, ctx, msg):
+        raw = msg.data_set if isinstance(msg.data_set, (bytes, bytearray)) else (msg.data_set.read() if msg.data_set else b'')
+        handler_log.append({'d': tok(raw), 'cls': str(msg.sop_class_uid), 'inst': str(msg.affected_sop_instance_uid), 'ts': str(ctx.supported_ts),
+                            'bytes': bytes(raw)})
+        rsp = pynetdicom2.dimsemessages.CStoreRSPMessage()
+        rsp.message_id_being_responded_to = msg.message_id
+        rsp.affected_sop_instance_uid = msg.affected_sop_instance_uid
+        rsp.sop_class_uid = msg.sop_class_uid
+        rsp.status = 0xB000 if len(handler_log) % 2 == 0 else 0
+        asce.send(rsp, ctx.id)
+    svc.sop_classes = [CT]
+    return svc
+
+
+def several_stores_one_association(ts, datasets, rng, mem, workdir):
+    """k stores on ONE association - received in memory (mem) or into files.  Returns observation records."""
+    log = []
+    handler = Handler()
+    srv = R.server_ae(ae_mod.AE, 'SRV', 0, supported_ts=[ts], max_pdu_length=rng.choice([512, 16384]))
+    if mem:
+        srv.add_scp(memory_service(log))
+    else:
+        srv.add_scp(sc.storage_scp)
+        seen = []
+
+        def on_store(context, ds):
+            st = handler(context, ds)
+            seen.append(dict(handler.got))
+            return st
+        srv.on_receive_store = on_store
+    srv.timeout = 60
+    cl = ae_mod.ClientAE('CL', supported_ts=[ts], max_pdu_length=rng.choice([1024, 16384])).add_scu(sc.storage_scu, [CT])
+    cl.timeout = 60
+    out, err = [], None
+    statuses_got = []
+    with R.Net() as net:
+        net.register(ADDR, srv)
+        try:
+            with cl.request_association(REMOTE) as assoc:
+                svc = assoc.get_scu(CT)
+                for k, ds in enumerate(datasets):
+                    handler.outcome = 0
+                    statuses_got.append(int(svc(ds, k + 1)))
+        except Exception as exc:      # noqa
+            err = '%s: %s' % (type(exc).__name__, exc)
+        net.wait_all(60)
+        link = net.links[0] if net.links else {'log': []}
+        lens = [sum(4 + 1 + len(x['val']) for x in p['pdvs']) for p in R.pdus_of(link['log'], 'R') if p['k'] == 'PD']
+    for k, ds in enumerate(datasets):
+        data = dsutils.encode(ds, ts.is_implicit_VR, ts.is_little_endian)
+        if mem:
+            g = log[k] if k < len(log) else None
+            readable = False
+            if g:
+                try:
+                    back = dsutils.decode(g['bytes'], ts.is_implicit_VR, ts.is_little_endian)
+                    readable = str(back.SOPInstanceUID) == str(ds.SOPInstanceUID)
+                except Exception:      # noqa
+                    readable = False
+            got = {'called': g is not None, 'd': g['d'] if g else 0, 'cls': g['cls'] if g else '', 'inst': g['inst'] if g else '',
+                   'readable': readable, 'ts': g['ts'] if g else ''}
+            hstatus = (0xB000 if (k + 1) % 2 == 0 else 0)
+        else:
+            g = seen[k] if k < len(seen) else None
+            got = {x: (g[x] if g else {'called': False, 'd': 0, 'readable': False}.get(x, '')) for x in ('called', 'd', 'cls', 'inst', 'readable', 'ts')}
+            hstatus = 0
+        out.append({'sent': {'d': tok(data), 'cls': CT, 'inst': str(ds.SOPInstanceUID)}, 'tsNegotiated': str(ts), 'handlerStatus': hstatus,
+                    'scuStatus': statuses_got[k] if k < len(statuses_got) else -1, 'maxA': cl.max_pdu_length, 'maxB': srv.max_pdu_length,
+                    'dirMode': False, 'pdataA2B': lens if k == 0 else [], 'got': got, 'before': [], 'after': []})
+    return out, err
+
+
 def main(tier='quick'):
     v = Verdict('C15', tier)
     rng = random.Random(seed())
@@ -277,6 +352,28 @@ def main(tier='quick'):
                         v.report({'site': 'whole-stack', 'clause': 'received-file-unreadable'}, 'handler could not read the file: %s (%r)' % (herr, meta), replay=meta)
                     cases.append(obs)
                     metas.append(meta)
+        # several stores on ONE association, received in memory and into files; one Dataset OBJECT stored again and
+        # again, under different negotiated syntaxes (an object that was encoded once remembers how)
+        shared = make_dataset(rng, 200, '1.2.3.88.1')
+        for k in range(3 if tier == 'quick' else 12):
+            if n_err >= 3:
+                break
+            ts = TSS[k % 3]
+            mem = (k % 2 == 0)
+            dss = [make_dataset(rng, rng.choice([0, 50, 900]), None) for _ in range(2)] + [shared]
+            rng.shuffle(dss)
+            obs_list, err = several_stores_one_association(ts, dss, rng, mem, work)
+            for j, obs in enumerate(obs_list):
+                meta = {'ts': str(ts), 'dir': False, 'maxA': obs['maxA'], 'maxB': obs['maxB'], 'size': 'several-on-one-association #%d' % (j + 1),
+                        'from_file': False, 'outcome': obs['handlerStatus'], 'repeat': False, 'roles': 'scp', 'reception': 'memory' if mem else 'file',
+                        'same_object_as_before': dss[j] is shared}
+                cases.append(obs)
+                metas.append(meta)
+            if err:
+                n_err += 1
+                v.report({'site': 'whole-stack', 'clause': 'store-raised', 'exc': err.split(':')[0]},
+                         'storage_scu raised %s (several stores on one association, ts %s, reception %s)' % (err, ts, 'memory' if mem else 'file'),
+                         replay={'ts': str(ts), 'several': True})
         # a loopback TCP sample on an ephemeral port (the repository's own tests use a fixed port)
     finally:
         tap.__exit__(None, None, None)
